@@ -7,6 +7,7 @@
 import JanetModel.Value.Order
 import JanetModel.Value.F64
 import JanetModel.Value.Struct
+import JanetModel.Value.StructLemmas
 
 namespace JanetModel.Props.C03
 open JanetModel.Value
@@ -132,6 +133,38 @@ theorem symbol_identity_iff_bytes (a b : List UInt8) :
     (jcompare (.sym a : JVal N) (.sym b) = .eq ↔ a = b) ∧ (jcompare (.kw a : JVal N) (.kw b) = .eq ↔ a = b) := by
   refine ⟨by simp [equals], by simp [equals], by simp [equals], by simp [equals], by simp [equals], ?_, ?_⟩ <;>
     simp [jcompare, bytesCompare_eq_iff]
+
+/-! ### struct layout
+
+STRETCH, NOT PROVED in general:
+  `struct_layout_canonical : (∀ k, lookup kvs₁ k = lookup kvs₂ k) → structOf kvs₁ = structOf kvs₂`
+  (the slot array built by `janet_struct_put` is a function of the key/value map alone, whatever the insertion order
+  and collision pattern, any capacity, including runs that wrap around).
+What is established instead:
+  * `struct_by_slots` above: equality of structs is element-wise equality of slot arrays (proved, all inputs);
+  * `struct_put_capacity`: puts never change the capacity (proved, all inputs);
+  * `struct_layout_canonical_partial`: a kernel-checked exhaustive TEST — for the six key sets of
+    `layoutFamilies` (full-hash collisions, equal-hash doubles with −0, runs wrapping around the array end, adjacent
+    runs with robin-hood displacement, nested keys) EVERY insertion order gives an `=` struct, and so does an insertion
+    sequence with a duplicate key, a nil value, a nil key and an over-announced count (rebuild in `janet_struct_end`);
+  * on the implementation: the harness checks on every run that values with the same content have identical slot
+    arrays, and the model's `structOf` reproduces the implementation's slot array from several insertion orders. -/
+
+theorem struct_put_capacity (st : StructBuild N) (key value : JVal N) (replace : Bool) :
+    (structPutExt st key value replace).slots.length = st.slots.length := structPutExt_capacity st key value replace
+
+/-- with a duplicate of the first key (overwritten later), a nil value, a nil key; announced count = sequence length -/
+def noisy (kvs : List (Slot F64)) : List (Slot F64) :=
+  match kvs with
+  | [] => []
+  | (k, _) :: _ => (k, .kw [1]) :: kvs ++ [(.kw [2], .nil), (.nil, .bool true)]
+
+theorem struct_layout_canonical_partial :
+    (layoutFamilies.all fun kvs =>
+      (permsOf kvs).all fun p =>
+        equals (structOf p) (structOf kvs) && equals (structOf (noisy p)) (structOf kvs) &&
+        equals (structOf p [structOf kvs]) (structOf kvs [structOf kvs.reverse])) = true := by
+  decide +kernel
 
 /-! ### non-vacuity: the executable doubles are lawful, and the statements speak about non-trivial values -/
 
